@@ -287,7 +287,7 @@ func TestC14Reopen(t *testing.T) {
 		var hist []any
 		// the very first start of the process may be cut short as well: the schema set-up fails at
 		// its k-th statement, the file is closed, and the next start has to complete the set-up
-		if rapid.IntRange(0, 2).Draw(t, "first_open_interrupted") == 0 {
+		if rapid.IntRange(0, 1).Draw(t, "first_open_interrupted") == 0 {
 			k := rapid.IntRange(0, 13).Draw(t, "first_open_fails_at_statement")
 			fdb, err := sql.Open("sqlite3_verif_fault", "file:"+path+"?_busy_timeout=5000")
 			if err != nil {
